@@ -188,7 +188,7 @@ def _check_record_flags(r, prop, k, f, c, kw):
     if ok:
         val = tr.body if norm(tr.test) == tw else tr.orelse
         val = _resolve_local(f, val)
-        ok = norm(val) in (tf, f"tuple({tf}) if {tf} is not None else {tf}")
+        ok = norm(val) in (tf, f"tuple({tf}) if {tf} is not None else {tf}", f"tuple({tf}) if {tf} is not None else None", f"None if {tf} is None else tuple({tf})", f"{tf} if {tf} is None else tuple({tf})")
     if not ok:
         r.violate(prop, f"{k.name}.stages:warm-up:{norm(kw.get('n_iter'))}:trace_funcs={norm(tr)[:50] if tr is not None else None}", f"the warm-up stage is traced with `{norm(tr)[:60] if tr is not None else None}`, not `{tf} if {tw} else None`", node=c, file=f.file)
 
